@@ -63,6 +63,14 @@ def handle (j : Json) : Except String Json := do
     -- several hits (threads), each with the oracle of its own frame
     let rs ← (← getArr j "threads").toList.mapM evalOne
     pure (Json.mkObj [("threads", Json.arr rs.toArray)])
+  | "concN" =>
+    -- several hits (threads) at one tracepoint without limits: each hit is gated by the condition evaluated with the
+    -- oracle of its own frame, and evaluates its fields with that oracle — no state is shared between hits
+    let rs ← (← getArr j "threads").toList.mapM (fun t => do
+      let ev ← parseOracle t "oracle"
+      let cond ← getOptStr t "condition"
+      pure (Json.mkObj [("fired", Json.bool (canTrigger true cond ev).1), ("fields", ← evalOne t)]))
+    pure (Json.mkObj [("threads", Json.arr rs.toArray)])
   | _ => throw s!"unknown op {op}"
 
 def main : IO Unit := serve handle
